@@ -779,6 +779,18 @@ def gen_accounting_case(rng, tier, hostile=None, hft=None, hostile_hft=False):
                       "priceChangeRate": rng.choice([-0.02, 0.0, 0.02]), "orderVolume": rng.choice([1, 8]),
                       "orderTimeLength": rng.choice([0, 0, 1, 3])}
         sessions[si]["events"] = ["OMS"]
+    if rng.random() < 0.3:
+        # market rules beside the accounting: halts that trip in the middle of a multi-fill round, price limits
+        si = rng.randrange(len(sessions))
+        if rng.random() < 0.7:
+            cfg["HALT"] = {"class": "TradingHaltRule", "targetMarkets": rng.sample(names, rng.randint(1, len(names))),
+                           "triggerChangeRate": rng.choice([0.0, 0.0, 0.005, 0.02]),
+                           "haltingTimeLength": rng.choice([1, 2, 5])}
+            sessions[si].setdefault("events", []).append("HALT")
+        else:
+            cfg["LIMIT"] = {"class": "PriceLimitRule", "targetMarkets": rng.sample(names, rng.randint(1, len(names))),
+                            "triggerChangeRate": rng.choice([0.01, 0.05])}
+            sessions[si].setdefault("events", []).append("LIMIT")
     if rng.random() < 0.08:
         # a long session: the run crosses the 100-step storage and generation chunks
         sessions[-1]["iterationSteps"] = rng.choice([101, 130, 205])
